@@ -1,4 +1,4 @@
-SPECIFICATION EGenSpec
+SPECIFICATION ESpec
 CONSTANTS
   NAddr = 2
   MaxObj = 3
@@ -9,15 +9,13 @@ CONSTANTS
   FixAdd = TRUE
   FixFlag = TRUE
   FixMark = TRUE
-  Policy = "lc"
+  Policy = "rr"
   Rise = 1
   Fall = 1
   MaxRounds = 0
   MaxConns = 1
-  MaxHalf = 0
-  WatcherLeaves = {}
+  MaxHalf = 1
+  WatcherLeaves = {"chc", "bhc"}
   MaxToggles = 0
-  TargetLen = 9
-VIEW EGenView
-INVARIANT TrapLatch
+INVARIANTS TypeOK ConnToUsable EstablishedClosed EView
 CHECK_DEADLOCK FALSE
